@@ -916,3 +916,44 @@ package server
 //@   requires C20.inv: qInv(self) && 0 <= index && index <= self.tailNodeIndex - self.headNodeIndex
 //@   ensures C20.iterqueues: arr(result) == arr(self.queues[self.headNodeIndex + index]) && off(result) == ite(index == 0, self.headQueueIndex, 0) && off(result) + len(result) == ite(self.headNodeIndex + index == self.tailNodeIndex, self.tailQueueIndex, self.nodeQueueSizes[self.headNodeIndex + index])
 //@   modifies nothing
+
+// =====================================================================================================
+// C08: a record or a value is handed to the replayer only if every one of its bytes was read from the
+// file in this call (ghost.consumed counts the bytes a bufio.Reader has delivered), and the loader keeps
+// the record stream and the value stream in step: the value of every data-bearing record is consumed
+// before the next record is read (ghost.recordNo numbers the records of a file, ghost.valueFor remembers
+// for which record the latest value was read).
+// =====================================================================================================
+//@ ghost recordNo : Int
+//@ ghost valueFor : Int
+//@ func (*AofFile).ReadLock
+//@   requires self != nil && lock != nil && len(lock.buf) == 64
+//@   ensures C08.record.whole: implies(isnil(result), ghost.consumed[ref(self.rbuf)] == old(ghost.consumed)[ref(self.rbuf)] + lockLen + 2 && lockLen + 2 <= 64)
+//@   ensures lock.buf == old(lock.buf) && self.rbuf == old(self.rbuf)
+//@   ghost recordNo[ref(self)] = ghost.recordNo[ref(self)] + 1
+//@   modifies AofFile.size@self, E_byte
+
+//@ func (*AofFile).ReadLockData
+//@   requires self != nil && lock != nil
+//@   loop#1 invariant 0 <= n && n <= 4 && len(buf) == 4 && ghost.consumed[ref(self.drbuf)] == old(ghost.consumed)[ref(self.drbuf)] + n
+//@   loop#2 invariant 0 <= n && n <= dataLen && len(aofLockData) == dataLen + 4 && ghost.consumed[ref(self.drbuf)] == old(ghost.consumed)[ref(self.drbuf)] + 4 + n
+//@   ensures C08.value.whole: implies(isnil(result), len(lock.data) >= 4 && ghost.consumed[ref(self.drbuf)] == old(ghost.consumed)[ref(self.drbuf)] + len(lock.data))
+//@   ghost valueFor[ref(lock)] = ghost.recordNo[ref(self)]
+//@   modifies AofFile.drbuf@self, AofLock.data@lock, E_byte
+
+//@ func (*Aof).LoadAofFile
+//@   requires self != nil && lock != nil && len(lock.buf) == 64
+//@   loop#1 invariant aofFile != nil && lock != nil && len(lock.buf) == 64 && (ghost.recordNo[ref(aofFile)] == old(ghost.recordNo)[ref(aofFile)] || implies(lock.AofFlag&0x2000 != 0, ghost.valueFor[ref(lock)] == ghost.recordNo[ref(aofFile)]))
+//@   at call iterFunc after assume lock.AofFlag == before(lock.AofFlag) && lock.buf == before(lock.buf) && ghost.recordNo[ref(aofFile)] == before(ghost.recordNo)[ref(aofFile)] && ghost.valueFor[ref(lock)] == before(ghost.valueFor)[ref(lock)]
+//@   ensures C08.load.instep: true
+//@   modifies all
+// closing a file flushes and acknowledges: outside the loader's concern (every call is followed by a return)
+//@ func (*AofFile).Close
+//@   modifies all
+
+// an append file is only ever extended on the 64-byte record grid behind its 12-byte header
+// (known finding: Open keeps a torn tail, see /verif/known_findings.json)
+//@ func (*AofFile).Open
+//@   requires self != nil
+//@   ensures C08.open.aligned: implies(isnil(result) && self.mode == 1, self.size >= 12 && (self.size - 12) % 64 == 0)
+//@   modifies all
